@@ -7,6 +7,7 @@
   Output: one `R` line per history (ok | diff ...) and one `M` line per monitor violation.
 -/
 import Hagall.Spec.Monitors
+import Hagall.Model.Latency
 open Hagall Hagall.Wire
 
 structure Block where
@@ -153,6 +154,36 @@ def finishHist (h : Hist) : IO Unit := do
   for v in Spec.runMonitors h.cfg h.steps.toList do
     IO.println s!"M {h.idx} {v.prop} {v.cause} event={v.event} :: {v.detail}"
 
+/-- `STAT n l_1 .. l_{n-1} L | min max mean p95 last sig count=.. ids=..`: one completed measurement of the real
+    `models.SignedLatency` with preset round latencies (the final round's end time is the wall clock, so its
+    latency is read back from `last`, which must be the intended `L` up to scheduling jitter) -/
+def checkStat (toks : List String) : Option String :=
+  match toks.span (· != "|") with
+  | (pre, _ :: post) =>
+    match pre.map String.toNat?, post with
+    | some n :: rest, mn :: mx :: mean :: p95 :: last :: sig :: cnt :: ids :: _ =>
+      let nums := rest.filterMap id
+      if nums.length != rest.length || nums.isEmpty then some "unparseable STAT line" else
+      let presets := nums.dropLast
+      let finalL := nums.getLast!
+      match mn.toNat?, mx.toNat?, mean.toNat?, p95.toNat?, last.toNat? with
+      | some mn, some mx, some mean, some p95, some last =>
+        if sig != "ok" then some "signature-does-not-verify: the report is not signed by the server key over the returned data"
+        else if cnt != s!"count={n}" || ids != s!"ids={n}" then some s!"round-count: {n} rounds run, report says {cnt} {ids}"
+        else if presets.length + 1 != n then some "unparseable STAT line"
+        else if last < finalL || last > finalL + 8000 then
+          some s!"last-not-final-round: final round took about {finalL} us, report says last={last}"
+        else
+          let st := Hagall.Latency.stats (presets ++ [last]) last
+          if st.min != mn then some s!"stats-min: latencies {presets ++ [last]} min {st.min}, report says {mn}"
+          else if st.max != mx then some s!"stats-max: expected {st.max}, report says {mx}"
+          else if st.mean != mean then some s!"stats-mean: expected {st.mean}, report says {mean}"
+          else if st.p95 != p95 then some s!"stats-p95: expected {st.p95}, report says {p95}"
+          else none
+      | _, _, _, _, _ => some "negative or non-integer statistics in the report"
+    | _, _ => some "unparseable STAT line"
+  | _ => some "unparseable STAT line"
+
 partial def loop (stdin : IO.FS.Stream) (h : Option Hist) (b : Block) : IO Unit := do
   let line ← stdin.getLine
   if line.isEmpty then
@@ -183,6 +214,16 @@ partial def loop (stdin : IO.FS.Stream) (h : Option Hist) (b : Block) : IO Unit 
   | "O" :: rest =>
     let h := h.map fun h => processBlock h b (parseOutcome rest)
     loop stdin h {}
+  | "STAT" :: rest =>
+    match checkStat rest with
+    | none => IO.println "T ok"
+    | some d =>
+      let cause := (d.splitOn ":").head!
+      IO.println s!"M 0 C18 {cause} event=0 :: {d} :: STAT {" ".intercalate rest}"
+    loop stdin h b
+  | "STATERR" :: rest =>
+    IO.println s!"M 0 C18 measurement-failed event=0 :: {" ".intercalate rest}"
+    loop stdin h b
   | _ => loop stdin h b
 
 def main : IO Unit := do
